@@ -218,3 +218,82 @@ func (o *Obj) AddGood(x int) { o.appendDB(x); o.built = false }
 
 // seeded: the helper changes the database, this caller does not invalidate
 func (o *Obj) AddBad(x int) { o.appendDB(x) }
+
+// ---- package options read while a cached value is built (R-KEY/globals) ----
+
+// CompatGood is recorded in the key of optGood; CompatBad is read by buildOptBad but is not part of the key of optBad.
+var (
+	CompatGood = false
+	CompatBad  = false
+)
+
+type optGood struct {
+	props  props
+	compat bool
+	value  int
+}
+
+func (p *optGood) init(pr props) {
+	p.props = pr
+	p.compat = CompatGood
+}
+
+func (p optGood) equal(o optGood) bool { return p.props == o.props && p.compat == o.compat }
+
+func buildOptGood(pr props) *optGood {
+	p := &optGood{}
+	p.init(pr)
+	if CompatGood {
+		p.value = 1
+	}
+	return p
+}
+
+type optBad struct {
+	props props
+	value int
+}
+
+func (p *optBad) init(pr props) { p.props = pr }
+
+func (p optBad) equal(o optBad) bool { return p.props == o.props }
+
+func buildOptBad(pr props) *optBad {
+	p := &optBad{}
+	p.init(pr)
+	if CompatBad {
+		p.value = 1
+	}
+	return p
+}
+
+type optBuf struct {
+	good []*optGood
+	bad  []*optBad
+}
+
+func (b *optBuf) goodCached(pr props) *optGood {
+	var key optGood
+	key.init(pr)
+	for _, p := range b.good {
+		if p.equal(key) {
+			return p
+		}
+	}
+	p := buildOptGood(pr)
+	b.good = append(b.good, p)
+	return p
+}
+
+func (b *optBuf) badCached(pr props) *optBad {
+	var key optBad
+	key.init(pr)
+	for _, p := range b.bad {
+		if p.equal(key) {
+			return p
+		}
+	}
+	p := buildOptBad(pr)
+	b.bad = append(b.bad, p)
+	return p
+}
